@@ -367,6 +367,10 @@ def _evaluate(e, env, bits=64):
             return 2.0 ** float(args[0])
         if name == "saturating_sub":
             return max(args[0] - args[1], 0)
+        if name in ("split_at", "split_at_checked") and len(args) == 2 and isinstance(args[0], list) and isinstance(args[1], int):
+            if 0 <= args[1] <= len(args[0]):
+                return (args[0][:args[1]], args[0][args[1]:])
+            raise Uneval("split_at out of range")
         if name in ("is_finite", "is_nan", "is_infinite") and len(args) == 1 and isinstance(args[0], (int, float)):
             import math
             x_ = float(args[0])
